@@ -349,6 +349,10 @@ func (e *Engine) locKeys(ct *Contract, ex *Expr, out map[string]bool) {
 					return
 				}
 			}
+		case "cell":
+			// a captured variable's cell: statically its type is not known here; callers by contract see everything
+			out["*"] = true
+			return
 		case "deref":
 			if t := typeOf(ex.Args[0]); t != nil {
 				if pt, ok := t.Underlying().(*types.Pointer); ok {
